@@ -144,6 +144,15 @@ CLAIMED["C08"] = dict(
            "non-positive shapes and negative abscissae. Range, monotonicity, identities, inverse relation and accuracy are NOT claimed (not applicable to this technique)."),
     note=TB + "All numerical clauses of C08 are outside static reach (coefficient values, series/continued-fraction switches, iteration counts); qNorm(1) returning the lower-tail sentinel is noted, not asserted.")
 
+CLAIMED["C04"] = dict(
+    engine="E2+E5+E8",
+    technique="static analysis: symbolic index-bound analysis of every instantiated MatrixTools kernel (index ranges and container dimensions as polynomials over size symbols, facts from throwing guards and resize calls on every path, refutation only with a witness shape whose reachability is decided by control dependence), accessor agreement of the three storage classes, implicit-conversion scan, identity-element / accumulator-reset dominance rules",
+    level=("Decides the shape clauses only: every element access of every MatrixTools kernel stays inside the dimensions that the guards and resize calls on its path establish for all shapes (incl. 0xn, 1xn, non-square, "
+           "unsized outputs), non-conformable operands reach a throwing guard before the first access, the three storage classes address the same element in their const and non-const accessor and keep their counters "
+           "in step with the storage, kernels have no implicit floating->integral truncation, reductions start from the right identity and products zero their output entry. The entries' values, storage-independence "
+           "of the values and optimality/dual certificate of the assignment solver are NOT claimed."),
+    note=TB + "sympy (tooling venv) does the polynomial comparisons. Data-dependent indices (the assignment solver's lists) stay UNKNOWN. Known findings: MatrixTools::lap (see known_findings.json).")
+
 NOT_APPLICABLE = {
     "C06": ("every clause is a floating-point identity of the JAMA QL/QR iterations (A.V = V.D within k.eps, ordering, trace/determinant); correctness lies in rotation coefficients and "
             "deflation tests that no sound static argument in reach bounds, and no structural necessary condition separable from run-time invariants exists (DESIGN.md section 6)"),
